@@ -157,8 +157,8 @@ def r4(ctx):
         raise AnalysisBroken('C03.R4: arbitration write not found in PlainDevice::recv')
     for c in writes:
         atoms = set((a[0], a[1]) for a in fn.atoms(c))
-        need = [('(*value == #%d)' % SYN, True), ('(this.m_arbitrationMaster == #%d)' % SYN, False),
-                ('this.m_arbitrationCheck', False), ('(len == #1)', True), ('arbitrationState', True)]
+        need = [('(*%s == #%d)' % (fn.P(1), SYN), True), ('(this.m_arbitrationMaster == #%d)' % SYN, False),
+                ('this.m_arbitrationCheck', False), ('(%s == #1)' % (fn.outarg('::read', 2) or 'len'), True), (fn.P(2), True)]
         missing = [a for a in need if a not in atoms]
         ctx.ob('C03.R4', fn, c, not missing, 'arbitration write', 'missing guards: %s' % missing)
 
@@ -198,7 +198,7 @@ def r5(ctx):
         for it in f.inits:
             if it['member'] == 'm_lockCount':
                 k = f.key(it['init'])
-                ok = k.startswith('((config.lockCount <= #3) ? #3 :') or 'max' in k
+                ok = k.startswith('((%s.lockCount <= #3) ? #3 :' % f.P(0)) or 'max' in k
                 ctx.ob('C03.R5', f, it['init'], ok, 'm_lockCount initial value', k)
 
 
@@ -225,7 +225,7 @@ def r6(ctx):
     ok = False
     for c in cancels:
         atoms = set((a[0], a[1]) for a in ss.atoms(c))
-        if ss.val(ss.nodes[c]['args'][0]) == SYN and ('(state == #%d)' % inv['bs_skip'], True) in atoms:
+        if ss.val(ss.nodes[c]['args'][0]) == SYN and ('(%s == #%d)' % (ss.P(0), inv['bs_skip']), True) in atoms:
             ok = True
     ctx.ob('C03.R6', ss, cancels[0] if cancels else ss.body, ok, 'arbitration cancelled on skip', 'startArbitration(SYN) under state == skip: %s' % ok)
 
